@@ -216,10 +216,17 @@ func nilEdgeFilter(e ssa.Value, wantNil bool) func(*ssa.BasicBlock, int) bool {
 			return true
 		}
 		v, eqNil, ok := core.NilCompare(cond)
-		if !ok || v != e {
+		if !ok {
 			return true
 		}
 		isNilOnEdge := (eqNil == truth)
+		if v != e {
+			// a variable that merges e with constants (the results of a helper placed at its call site)
+			if n, known := nilUnder(v, e, wantNil, 3); known {
+				return isNilOnEdge == n
+			}
+			return true
+		}
 		return isNilOnEdge == wantNil
 	}
 }
